@@ -2,6 +2,7 @@ package main
 
 import (
 	"fmt"
+	"go/constant"
 	"go/types"
 	"strings"
 
@@ -18,6 +19,7 @@ var intrinsics map[string]intrinsic
 func init() {
 	intrinsics = map[string]intrinsic{
 		"fmt.Errorf":   freshError,
+		"fmt.Sprintf":  sprintf,
 		"errors.New":   freshError,
 		"bytes.Equal":  bytesEqual,
 		"google.golang.org/protobuf/proto.Unmarshal": protoUnmarshal,
@@ -364,4 +366,87 @@ func protoMarshal(f *Frame, in ssa.Instruction, args []SV, cc *ssa.CallCommon, s
 	ms := c.ghostVar("marshalOf", "(Array Int BV)")
 	st.set(ms, ite(okc, sto(st.get(ms), ref, bv), st.get(ms)))
 	return SV{Tup: []SV{out, res}}, true
+}
+
+// sprintf: for a constant format made of literal text and %s / %d / %v verbs whose arguments are strings
+// (or non-negative-or-any integers, rendered by an injective uninterpreted function) the result is the
+// concatenation; otherwise an unconstrained string.
+func sprintf(f *Frame, in ssa.Instruction, args []SV, cc *ssa.CallCommon, st *State, g string) (SV, bool) {
+	c := f.c()
+	c.useStrings = true
+	fresh := func() (SV, bool) { return tv(c.freshConst("sprintf", "String")), true }
+	k, ok := cc.Args[0].(*ssa.Const)
+	if !ok || k.Value == nil {
+		return fresh()
+	}
+	format := constantString(k)
+	// locate the varargs elements
+	var elems map[string]SV
+	vs := args[1].T
+	for _, v := range f.x.views {
+		if strings.Contains(vs, v.ref+" ") || strings.HasSuffix(vs, v.ref) || c.sRef(vs) == v.ref {
+			elems = f.x.varargs[v.src.Ref]
+		}
+	}
+	var parts []string
+	argi := 0
+	lit := ""
+	for i := 0; i < len(format); i++ {
+		if format[i] != '%' {
+			lit += string(format[i])
+			continue
+		}
+		if i+1 >= len(format) {
+			return fresh()
+		}
+		verb := format[i+1]
+		i++
+		if verb == '%' {
+			lit += "%"
+			continue
+		}
+		if verb != 's' && verb != 'd' && verb != 'v' {
+			return fresh()
+		}
+		if lit != "" {
+			parts = append(parts, strLit(lit))
+			lit = ""
+		}
+		if elems == nil {
+			return fresh()
+		}
+		ev, ok := elems[num(int64(argi))]
+		argi++
+		if !ok || ev.DynV == nil || ev.Dyn == nil || ev.DynV.T == "" {
+			return fresh()
+		}
+		if b, isB := ev.Dyn.Underlying().(*types.Basic); isB && b.Info()&types.IsString != 0 {
+			parts = append(parts, ev.DynV.T)
+		} else if isB && b.Info()&types.IsInteger != 0 && verb != 's' {
+			fn := c.declFun("itoa", []string{"Int"}, "String")
+			parts = append(parts, app(fn, ev.DynV.T))
+			c.note("model: integers formatted by fmt.Sprintf are rendered by an uninterpreted function itoa")
+		} else {
+			return fresh()
+		}
+	}
+	if lit != "" {
+		parts = append(parts, strLit(lit))
+	}
+	switch len(parts) {
+	case 0:
+		return tv("\"\""), true
+	case 1:
+		return tv(parts[0]), true
+	}
+	nm := c.freshConst("sprintf", "String")
+	c.assert(eq(nm, "(str.++ "+strings.Join(parts, " ")+")"))
+	return tv(nm), true
+}
+
+func constantString(k *ssa.Const) string {
+	if k.Value == nil {
+		return ""
+	}
+	return constant.StringVal(k.Value)
 }
